@@ -186,7 +186,7 @@ def probe(storage, x, seen_classes, stats, deep):
     before = storage_image(storage)
     subsets = [list(c) for k in range(4) for c in itertools.combinations(NAMES, k)]
     for subset in subsets:
-        for use_storage, direct in ((True, False), (False, False), (False, True)):
+        for use_storage, direct in ((True, False), (False, False), (False, True), (True, True)):
             for n in ((1, 2) if len(subset) <= 2 else (1,)):
                 drv = probe_driver(storage, x, subset, use_storage, direct, n, seen_classes)
                 outs = set()
